@@ -813,6 +813,7 @@ func runC06(c *Ctx) {
 	// packet up to the limit
 	c.withRule("R16", func() { checkFrameLimits(c, newZWorld(p)) })
 	checkDecodedPacketsDoNotAliasTheBuffer(c, "R17")
+	checkHeaderReservesLengthPrefix(c, "R18")
 
 	// ---------- R8 count guards refuse only what cannot fit ----------
 	checkCountGuards(c, "R8")
@@ -1985,4 +1986,46 @@ func checkDecodedPacketsDoNotAliasTheBuffer(c *Ctx, rule string) {
 		})
 	}
 	c.check(n >= 2, rule, "byte-slice fields decoded by the filexfer codec", "?", fmt.Sprintf("%d stores", n), fmt.Sprintf("only %d byte-slice fields found in the filexfer decoders", n))
+}
+
+// checkHeaderReservesLengthPrefix (C06.R18 / C03.R8): sendPacket writes the length into the first four bytes of what a
+// packet's marshaller returns (header[:4]).  Every buffer a marshaller of package sftp creates therefore starts with
+// those four bytes reserved — make([]byte, 4, n).  With make([]byte, 0, n) the length word overwrites the type byte and
+// three bytes of the request id: the peer reads another packet type, under another id.
+func checkHeaderReservesLengthPrefix(c *Ctx, rule string) {
+	p := c.P
+	n := 0
+	for _, fn := range p.LibFuncs() {
+		if fn.Pkg != p.Sftp || fn.Parent() != nil {
+			continue
+		}
+		nm := fn.Name()
+		if nm != "MarshalBinary" && nm != "marshalPacket" && nm != "marshalIDStringPacket" && nm != "marshalStatus" {
+			continue
+		}
+		eachInstr(fn, func(in ssa.Instruction) {
+			ms, ok := in.(*ssa.MakeSlice)
+			if !ok || !isByteSlice(ms.Type()) {
+				return
+			}
+			// the buffer that is appended to and returned (not a scratch copy)
+			grows := false
+			for _, r := range *ms.Referrers() {
+				if cc := callOf(r); cc != nil {
+					grows = true
+				}
+				if _, isPhi := r.(*ssa.Phi); isPhi {
+					grows = true
+				}
+			}
+			if !grows {
+				return
+			}
+			n++
+			k, isK := constInt(ms.Len)
+			c.check(isK && k == 4, rule, "buffer of "+fnName(fn)+" starts with the length prefix reserved", p.Pos(in.Pos()), "make([]byte, 4, n)",
+				"the marshaller's buffer does not start with four reserved bytes: sendPacket writes the length over the packet's type and request id")
+		})
+	}
+	c.check(n >= 20, rule, "marshal buffers", "?", fmt.Sprintf("%d buffers", n), fmt.Sprintf("only %d marshal buffers found in package sftp", n))
 }
